@@ -1004,7 +1004,7 @@ package restful
 //@ nopanic
 
 //@ func (*RouteBuilder).Build
-//@ props C04 C06 C11 C14
+//@ props C04 C06 C07 C11 C14
 //@ requires b != nil && b.function != nil && TrimRightSlashEnabled
 //@ requires valid: pathCompiles(b.currentPath)
 //@ ensures method: result.Method == b.httpMethod && same(result.Function, b.function) && same(result.Filters, b.filters) && same(result.If, b.conditions) && same(result.Produces, b.produces) && same(result.Consumes, b.consumes)
@@ -2120,6 +2120,21 @@ package restful
 //@ requires c != nil
 //@ modifies c.router
 //@ ensures same(c.router, aRouter)
+//@ nopanic
+
+// the two encoding switches (C07): the container's, and a route's own override — set as given, nothing else touched
+//@ func (*Container).EnableContentEncoding
+//@ props C07
+//@ requires c != nil
+//@ modifies c.contentEncodingEnabled
+//@ ensures c.contentEncodingEnabled == enabled
+//@ nopanic
+
+//@ func (*RouteBuilder).ContentEncodingEnabled
+//@ props C07
+//@ requires b != nil
+//@ modifies b.contentEncodingEnabled
+//@ ensures result == b && b.contentEncodingEnabled != nil && fresh(b.contentEncodingEnabled) && *b.contentEncodingEnabled == enabled
 //@ nopanic
 
 // registering filters (C06): a filter is added behind the ones registered before it, which keep their order
